@@ -584,6 +584,21 @@ class GenAudit:
             self.viol("C05", "mass_sum", f"heavy-atom mass {mass} != sum over residues {want_mass}")
         if abs(float(result.weight) - mass) > 1e-6 * max(1, n_inst):
             self.viol("C05", "mass_accessor", f"MolGen.weight {result.weight} != heavy-atom mass of MolGen.mol {mass}")
+        # the SMILES accessor describes the same molecule as MolGen.mol (elements, isotopes, charges, bonds; stereo marks are
+        # not compared: they never survive generation)
+        try:
+            smi = result.smiles
+            pp = Chem.SmilesParserParams()
+            pp.removeHs = False  # an explicit [H] token is an atom of the molecule
+            back = Chem.MolFromSmiles(smi, pp)
+            if back is None:
+                self.viol("C05", "smiles_accessor", f"MolGen.smiles {smi!r} is not valid SMILES")
+            else:
+                a, b = _flat(back), _flat(mol)
+                if a != b:
+                    self.viol("C05", "smiles_accessor", f"MolGen.smiles {smi!r} denotes {a!r}, MolGen.mol is {b!r}")
+        except Exception as exc:
+            self.viol("C05", "smiles_accessor", f"MolGen.smiles raised {exc!r}")
         # ---------------- C06 ---------------------------------------------------------
         if "C06" not in self.props or not self.expect_complete:
             return
@@ -716,6 +731,12 @@ class GenAudit:
                 self.probe("negative_target")
             if any(x == t for x in added):
                 self.probe("tie_target")
+
+
+def _flat(m):
+    m = Chem.Mol(m)
+    Chem.RemoveStereochemistry(m)
+    return Chem.MolToSmiles(m)
 
 
 def dist_text_matches(text, dist):
